@@ -138,6 +138,12 @@ Inductive c14case :=
 
 Definition list_json_equiv (a b : list json) : bool := json_equiv (JArr a) (JArr b).
 
+(* member names that merely begin like a protected member's name ("publicKeys", "serviceHints"):
+   the ietf validator refuses their pointers too (listed finding, see known_findings.json) *)
+Definition shadow_name (k : string) : bool :=
+  orb (andb (is_prefix "publicKey" k) (negb (String.eqb k "publicKey")))
+      (andb (is_prefix "service" k) (negb (String.eqb k "service"))).
+
 Definition judge_c14 (c : c14case) : verdict :=
   match c with
   | mk_c14doc doc in_class ips applied all_valid rt =>
@@ -149,7 +155,8 @@ Definition judge_c14 (c : c14case) : verdict :=
       | Some ps =>
           if negb (String.eqb (entry_id doc) "") then SpecFail 3
           else if andb in_class (negb (opt_obj_equiv applied (Some doc))) then SpecFail 4
-          else if andb in_class (negb all_valid) then SpecFail 5
+          else if andb in_class (negb all_valid) then
+            (if existsb (fun kv => shadow_name (fst kv)) doc then Known 20 else SpecFail 5)
           else if negb rt then SpecFail 6
           else match m with
                | Some mps => if list_json_equiv mps ps then Pass else Mismatch 7
